@@ -19,4 +19,9 @@ ProbeNoAcceptLater == \A r \in RM : ~(rmState[r].type = "blockAccepted" /\ rmSta
 ProbeNoMaxView     == \A r \in RM : Honest(r) => rmState[r].view < MaxView
 ProbeNoCvThenCommit == \A r \in RM : ~(rmState[r].type = "commitSent"
                           /\ [type |-> "ChangeView", rm |-> r, view |-> rmState[r].view] \in msgs)
+
+\* focus constraints (harness C20): prune behaviours in which somebody commits before view 1 / view 2,
+\* so that random simulation spends its budget on decisions taken after one or two view changes
+FocusLateViews1 == \A r \in RM : rmState[r].type \in {"commitSent", "commitAckSent", "blockAccepted"} => rmState[r].view >= 1
+FocusLateViews2 == \A r \in RM : rmState[r].type \in {"commitSent", "commitAckSent", "blockAccepted"} => rmState[r].view >= 2
 =============================================================================
